@@ -30,3 +30,39 @@ def st_false3(conv: Converter, p: str):
 def st_false4(c1: Converter, c2: Converter, u: str):
     requires(WF(c1) and WF(c2))
     assert c1.compress(u) == c2.compress(u)
+
+
+# ---- deliberately FALSE contracts on real functions (keys "qualname#tag"; never part of a property's cone) ------------
+from curies.api import CompressionError, Record
+
+
+@contract("api.Converter.parse_uri#off_by_one", props=["SELFTEST"], expect="fail", returns="ReferenceTuple|None")
+def c_false_parse_uri(self: Converter, uri: str, strict: bool, return_none: bool):
+    """Claims the remainder starts one character after the matched prefix."""
+    requires(WF(self))
+    pure()
+    hit = uri_hit(self, uri)
+    raises(CompressionError, when=not hit and strict)
+    ensures(implies(hit, result is not None and any(
+        uri.startswith(k) and is_longest(self, uri, k) and result[0] == r.prefix and result[1] == uri[len(k) + 1:]
+        for r in self.records for k in U(r))))
+    ensures(implies(not hit and return_none, result is None))
+    ensures(implies(not hit and not return_none, result == (None, None)))
+
+
+@contract("api.Converter.add_record#never_grows", props=["SELFTEST"], expect="fail", returns="None")
+def c_false_add_record(self: Converter, record: Record, case_sensitive: bool, merge: bool):
+    """Claims add_record never changes the number of records."""
+    requires(WF(self) and RecInv(record) and all(r is not record for r in self.records))
+    may_raise(ValueError)
+    modifies(self, *self.records)
+    ensures(len(self.records) == old(len(self.records)))
+
+
+@contract("api.Converter.__init__#wf_without_strict", props=["SELFTEST"], expect="fail", returns="None")
+def c_false_init(self: Converter, records: list[Record], delimiter: str, strict: bool):
+    """Claims the representation invariant even for non-strict construction."""
+    requires(all(RecInv(r) for r in records) and delimiter != "")
+    may_raise(ValueError)
+    modifies(self)
+    ensures(WF(self))
